@@ -1,3 +1,4 @@
+import Oidc.Proofs.CodeHandler
 import Oidc.Shapes
 import Oidc.Proofs.World
 import Oidc.Proofs.WorldHist2
@@ -85,5 +86,24 @@ theorem text_TraefikOidc_exchangeTokens_ok : Oidc.Shapes.Text_TraefikOidc_exchan
 theorem text_SessionData_SetEmail_ok : Oidc.Shapes.Text_SessionData_SetEmail := by unfold Oidc.Shapes.Text_SessionData_SetEmail; rfl
 theorem text_SessionData_GetIncomingPath_ok : Oidc.Shapes.Text_SessionData_GetIncomingPath := by unfold Oidc.Shapes.Text_SessionData_GetIncomingPath; rfl
 theorem text_SessionData_SetIncomingPath_ok : Oidc.Shapes.Text_SessionData_SetIncomingPath := by unfold Oidc.Shapes.Text_SessionData_SetIncomingPath; rfl
+
+/-! ## The same statements about the code itself: the functions below are `Oidc.Generated.Code`, which `tools/go2lean` translates
+    from /repo's source, statement by statement, on every run (meaning of the Go constructs: `Oidc/GoLib.lean`) -/
+open Oidc.Generated Oidc.CodeRefine in
+/-- main.go `isUserAuthenticated` as translated is the model's `classify`: which sessions count as established, which are due
+    for a refresh, which are over -/
+theorem code_isUserAuthenticated (c : Cfg) (e : Env) (v : View) (t : Go.Inst) (sess : Go.Sess)
+    (hA : sess.GetAuthenticated = getAuth c.maxAge e.now v)
+    (hR : sess.GetRefreshToken = getToken e.decompress v .refresh)
+    (hT : sess.GetAccessToken = getToken e.decompress v .access)
+    (hG : t.refreshGracePeriod = c.grace * 1000000000)
+    (hP : (t.parseJWT sess.GetAccessToken).2.isNone = (e.tok sess.GetAccessToken).parses)
+    (hV : (t.VerifyJWTSignatureAndClaims (t.parseJWT sess.GetAccessToken).1 sess.GetAccessToken).isNone
+            = decide ((e.tok sess.GetAccessToken).verdict e.now = .accept))
+    (hE : (e.tok sess.GetAccessToken).verdict e.now = .accept →
+            ∃ x, Go.asF64 (Go.mapGet (t.parseJWT sess.GetAccessToken).1.Claims "exp".toList) = (x, true) ∧
+                 x.trunc = (e.tok sess.GetAccessToken).exp) :
+    Code.TraefikOidc_isUserAuthenticated (e.now * 1000000000) t sess = classify c e v :=
+  isUserAuthenticated_refines c e v t sess hA hR hT hG hP hV hE
 
 end Oidc.Props.C04
